@@ -564,6 +564,28 @@ fn fills_keep_what_is_not_pixels(rng: &mut Rng, rep: &mut Report) {
     }
 }
 
+/// Dimensions whose pixel data comes to 4 GiB or more (the byte count no longer fits in 32 bits): `from_bytes` still
+/// refuses every slice that is not of the padded length — here slices of 0 .. 4112 bytes, none of which is.
+pub fn huge_dimensions_short_slices(rep: &mut Report) {
+    for (w, h) in [(65_536u32, 524_288u32), (8, u32::MAX), (u32::MAX, 8), (u32::MAX, 1), (65_537, 524_288), (1 << 20, 1 << 20), (u32::MAX, u32::MAX), (1 << 31, 16), ((1 << 29) + 1, 64), (1 << 16, 1 << 19)] {
+        let need = 4u128 + u128::from(w) * u128::from(h.div_ceil(8));
+        for len in [0usize, 4, 12, 16, 32, 4096, 4112] {
+            let sig = format!("huge-short|{}x{}|{}", w, h, len);
+            rep.case(Some(crate::util::fnv(sig.as_bytes())));
+            if need.div_ceil(16) * 16 == len as u128 {
+                continue;
+            }
+            let buf = vec![0u8; len];
+            let r = catch(|| (Page::from_bytes(w, h, &buf[..]).is_ok(), Page::from_bytes(w, h, buf.clone()).is_ok()));
+            match r {
+                Ok((false, false)) => rep.count("short_slices_for_huge_dimensions_refused"),
+                Ok(_) => rep.violation(MON, "from_bytes_accepts_wrong_length", &sig, format!("from_bytes({}x{}, {} bytes) succeeded; the padded size has {} digits", w, h, len, (need.div_ceil(16) * 16).to_string().len()), J::obj(vec![("workload", J::s("huge dimensions, short slices")), ("width", J::Int(i128::from(w))), ("height", J::Int(i128::from(h))), ("len", J::Int(len as i128))])),
+                Err(p) => rep.violation(MON, "panic", &sig, format!("from_bytes({}x{}, {} bytes): panic {} at {}", w, h, len, p.msg, short_loc(&p.loc)), J::Null),
+            }
+        }
+    }
+}
+
 /// Pages over the caller's bytes whose pixel area is all one value, with EVERY page id 0..=255 in the header (an id that
 /// equals the fill byte, the header marker, a column byte ...), borrowed and owned: a fill makes every pixel read the
 /// value, a clear makes every pixel read dark, and the id stays what it was.
@@ -794,6 +816,7 @@ pub fn run(ctx: &Ctx) -> Outcome {
         fills_keep_what_is_not_pixels(&mut ctx.rng("fills", 0), &mut at_exit);
         nearly_uniform_pages(&mut at_exit);
         uniform_pages_with_every_id(&mut at_exit);
+        huge_dimensions_short_slices(&mut at_exit);
         large_pages_around_a_chunk_boundary(&mut at_exit);
         crate::exitprobe::check_migration("page", MON, &mut at_exit);
         report.merge(at_exit);
@@ -802,6 +825,7 @@ pub fn run(ctx: &Ctx) -> Outcome {
         floor("new pages of 8 different sizes (1 byte .. 1 MiB) built at the same instant on 8 threads, every one checked", report.get("pages_built_while_other_threads_built_other_sizes") >= 8 * 96, report.get("pages_built_while_other_threads_built_other_sizes")),
         floor("the same coordinate set on two pages of different strides one right after the other (42 ordered pairs, every common pixel)", report.get("page_pairs_accessed_at_the_same_coordinates") == 42, report.get("page_pairs_accessed_at_the_same_coordinates")),
         floor("pages over the caller's bytes (arbitrary header and padding, borrowed and owned) filled, cleared and drawn on: nothing outside the pixel area changes", report.get("pages_over_the_callers_bytes_filled_and_drawn_on") == 120, report.get("pages_over_the_callers_bytes_filled_and_drawn_on")),
+        floor("slices of 0 .. 4112 bytes for ten dimensions of 4 GiB and more: all refused", report.get("short_slices_for_huge_dimensions_refused") == 70, report.get("short_slices_for_huge_dimensions_refused")),
         floor("pages over bytes whose pixel area is all one value, with every id 0..=255 (3 sizes, borrowed and owned), filled and cleared in both orders", report.get("uniform_pages_with_every_id") == 3 * 256 * 4, report.get("uniform_pages_with_every_id")),
         floor("pages that are all one value but for one pixel (in every byte of the pixel area in turn), then filled", report.get("nearly_uniform_pages_filled") > 1_500, report.get("nearly_uniform_pages_filled")),
         floor("new pages of 4 KiB and more whose data ends on, just before and just past a 16-byte boundary", report.get("large_new_pages_around_a_chunk_boundary") == 60, report.get("large_new_pages_around_a_chunk_boundary")),
